@@ -45,7 +45,7 @@ theorem newConn_inv (k : Nat) (a : Option Nat) : ConnInv (newConn k a) := by
 theorem stepS_inv {c c' : Conn} {a : Act} {free : Bool} {cmds : List Cmd}
     (hi : ConnInv c) (h : stepS c a free = some (c', cmds)) :
     ConnInv c' ∧ c'.addr = c.addr ∧ (c'.entry = true → c.entry = true) ∧
-    (holding c'.pc = true → holding c.pc = true ∨ free = true) := by
+    (holding c'.pc = true → holding c.pc = true ∨ free = true) ∧ c'.cbs = c.cbs := by
   unfold stepS at h
   split at h <;> (try split at h) <;>
     simp only [Option.some.injEq, Prod.mk.injEq, reduceCtorEq] at h <;>
@@ -59,10 +59,10 @@ theorem applyCmds_spec : ∀ (cmds : List Cmd) (s s' : St), applyCmds s cmds = s
     (∃ new, s'.conns = s.conns ++ new ∧ (∀ c ∈ new, ∃ k a, c = newConn k a) ∧
       (s'.lateOpen = false → s.lateOpen = false ∧ (isLate s.hpc = true → new = []))) ∧
     s'.hpc = s.hpc ∧ s'.cpc = s.cpc ∧ s'.centry = s.centry ∧ s'.cwopen = s.cwopen ∧
-    s'.nCC = s.nCC ∧ s'.nCD = s.nCD ∧ s'.size = s.size := by
+    s'.nCC = s.nCC ∧ s'.nCD = s.nCD ∧ s'.size = s.size ∧ s'.ccbs = s.ccbs ∧ s'.hcount = s.hcount := by
   intro cmds
   induction cmds with
-  | nil => intro s s' h; simp [applyCmds] at h; subst h; exact ⟨⟨[], by simp⟩, rfl, rfl, rfl, rfl, rfl, rfl, rfl⟩
+  | nil => intro s s' h; simp [applyCmds] at h; subst h; exact ⟨⟨[], by simp⟩, rfl, rfl, rfl, rfl, rfl, rfl, rfl, rfl, rfl⟩
   | cons c cs ih =>
     intro s s' h
     simp only [applyCmds] at h
@@ -70,18 +70,18 @@ theorem applyCmds_spec : ∀ (cmds : List Cmd) (s s' : St), applyCmds s cmds = s
     | none => simp [hc] at h
     | some s1 =>
       simp only [hc] at h
-      obtain ⟨⟨new, hn1, hn2, hn3⟩, h1, h2, h3, h4, h5, h6, h7⟩ := ih s1 s' h
+      obtain ⟨⟨new, hn1, hn2, hn3⟩, h1, h2, h3, h4, h5, h6, h7, h8, h9⟩ := ih s1 s' h
       cases c with
       | spawn =>
         simp [applyCmd] at hc; subst hc
         exact ⟨⟨new, by simpa using hn1, hn2, by simpa using hn3⟩, by simpa using h1, by simpa using h2,
-          by simpa using h3, by simpa using h4, by simpa using h5, by simpa using h6, by simpa using h7⟩
+          by simpa using h3, by simpa using h4, by simpa using h5, by simpa using h6, by simpa using h7, by simpa using h8, by simpa using h9⟩
       | opn key addr =>
         simp only [applyCmd] at hc
         split at hc
         · simp only [Option.some.injEq] at hc; subst hc
           refine ⟨⟨newConn key addr :: new, by simpa using hn1, ?_, ?_⟩, by simpa using h1, by simpa using h2,
-            by simpa using h3, by simpa using h4, by simpa using h5, by simpa using h6, by simpa using h7⟩
+            by simpa using h3, by simpa using h4, by simpa using h5, by simpa using h6, by simpa using h7, by simpa using h8, by simpa using h9⟩
           · intro c hc
             rcases List.mem_cons.mp hc with rfl | hc
             · exact ⟨key, addr, rfl⟩
@@ -95,35 +95,76 @@ theorem applyCmds_spec : ∀ (cmds : List Cmd) (s s' : St), applyCmds s cmds = s
 
 /-! ### the global invariant -/
 
+def hasWait (c : Conn) : Bool := c.cbs.contains .waitH
+
+/-- a task's pending done-callbacks: release_transport first, asyncio.wait's callback behind it; the entry can
+    only be in transports while release_transport has not run -/
+def CbInv (c : Conn) : Prop :=
+  (c.cbs = [.release] ∨ c.cbs = [.release, .waitH] ∨ c.cbs = [.waitH] ∨ c.cbs = []) ∧
+  (c.entry = true → c.cbs = [.release] ∨ c.cbs = [.release, .waitH])
+
+theorem newConn_cb (k : Nat) (a : Option Nat) : CbInv (newConn k a) ∧ hasWait (newConn k a) = false := by
+  simp [CbInv, newConn, hasWait]
+
+/-- the client connection handler's callbacks -/
+def cwait (s : St) : Nat := if s.ccbs.contains .waitH then 1 else 0
+
+/-- handle_client has not created the client handler task yet -/
+def preC : HPC → Bool
+  | .h0 | .inCC | .killClose | .preStart => true
+  | _ => false
+
+/-- handle_client is past `await asyncio.wait([handler])` (or never created the handler: kill path) -/
+def postC : HPC → Bool
+  | .preCD | .inCD | .final | .returned => true
+  | _ => false
+
+def CInv (s : St) : Prop :=
+  (s.ccbs = [] ∨ s.ccbs = [.release, .waitH] ∨ s.ccbs = [.waitH]) ∧
+  (s.cpc ≠ .absent → s.centry = true → s.ccbs = [.release, .waitH]) ∧
+  (s.hpc = .waitC → s.cpc ≠ .absent) ∧
+  (s.cpc = .absent → s.ccbs = []) ∧
+  (preC s.hpc = true → s.cpc = .absent) ∧
+  (postC s.hpc = true → cwait s = 0)
+
 def HInv (s : St) : Prop :=
   (s.centry = false → s.cwopen = false) ∧
   match s.hpc with
   | .h0 => s.nCC = 0 ∧ s.nCD = 0
   | .inCC | .killClose | .preStart | .waitC => s.nCC = 1 ∧ s.nCD = 0
   | .preCD => s.nCC = 1 ∧ s.nCD = 0 ∧ s.centry = false
-  | .inCD | .final _ | .returned => s.nCC = 1 ∧ s.nCD = 1 ∧ s.centry = false
+  | .inCD | .final | .returned => s.nCC = 1 ∧ s.nCD = 1 ∧ s.centry = false
 
 structure Inv (s : St) : Prop where
   conn : ∀ c ∈ s.conns, ConnInv c
   sem : ∀ a, s.conns.countP (holdsAt a) ≤ s.size
   h : HInv s
-  fin : ∀ w, s.hpc = .final w → s.lateOpen = false → ∀ i c, s.conns[i]? = some c → c.entry = true → i ∈ w
+  cb : ∀ c ∈ s.conns, CbInv c
+  cl : CInv s
+  wait : s.hcount = s.conns.countP hasWait + cwait s
+  nowait : isLate s.hpc = false → ∀ c ∈ s.conns, hasWait c = false
+  fin : s.hpc = .final → s.lateOpen = false → ∀ c ∈ s.conns, c.entry = true → hasWait c = true
   ret : s.hpc = .returned → s.lateOpen = false → ∀ c ∈ s.conns, c.entry = false
 
 theorem init_inv (n : Nat) : Inv (init n) := by
-  constructor <;> simp [init, HInv]
+  constructor <;> simp [init, HInv, CInv, cwait, preC, postC]
 
 theorem holdsAt_new (a k : Nat) (ad : Option Nat) : holdsAt a (newConn k ad) = false := by
   simp [holdsAt, newConn, holding]
 
 theorem Inv.apply {s s' : St} {cmds : List Cmd} (hi : Inv s) (h : applyCmds s cmds = some s') : Inv s' := by
-  obtain ⟨⟨new, hn1, hn2, hn3⟩, h1, h2, h3, h4, h5, h6, h7⟩ := applyCmds_spec cmds s s' h
+  obtain ⟨⟨new, hn1, hn2, hn3⟩, h1, h2, h3, h4, h5, h6, h7, h8, h9⟩ := applyCmds_spec cmds s s' h
   have hcount : ∀ a, new.countP (holdsAt a) = 0 := by
     intro a
     rw [List.countP_eq_zero]
     intro c hc
     obtain ⟨k, ad, rfl⟩ := hn2 c hc
     simp [holdsAt_new]
+  have hwcount : new.countP hasWait = 0 := by
+    rw [List.countP_eq_zero]
+    intro c hc
+    obtain ⟨k, ad, rfl⟩ := hn2 c hc
+    simp [(newConn_cb k ad).2]
   constructor
   · intro c hc
     rw [hn1] at hc
@@ -136,12 +177,30 @@ theorem Inv.apply {s s' : St} {cmds : List Cmd} (hi : Inv s) (h : applyCmds s cm
   · have := hi.h
     unfold HInv at this ⊢
     rw [h1, h3, h4, h5, h6]; exact this
-  · intro w hw hl i c hc he
+  · intro c hc
+    rw [hn1] at hc
+    rcases List.mem_append.mp hc with hc | hc
+    · exact hi.cb c hc
+    · obtain ⟨k, a, rfl⟩ := hn2 c hc; exact (newConn_cb k a).1
+  · have := hi.cl
+    unfold CInv cwait at this ⊢
+    rw [h1, h2, h3, h8]; exact this
+  · rw [h9, hn1, List.countP_append, hwcount]
+    have := hi.wait
+    simp only [cwait, h8] at this ⊢
+    omega
+  · intro hl c hc
+    rw [h1] at hl
+    rw [hn1] at hc
+    rcases List.mem_append.mp hc with hc | hc
+    · exact hi.nowait hl c hc
+    · obtain ⟨k, a, rfl⟩ := hn2 c hc; exact (newConn_cb k a).2
+  · intro hw hl c hc he
     obtain ⟨hl0, hnew⟩ := hn3 hl
     rw [h1] at hw
     have : new = [] := hnew (by simp [hw, isLate])
     rw [hn1, this, List.append_nil] at hc
-    exact hi.fin w hw hl0 i c hc he
+    exact hi.fin hw hl0 c hc he
   · intro hr hl c hc
     obtain ⟨hl0, hnew⟩ := hn3 hl
     rw [h1] at hr
@@ -149,39 +208,24 @@ theorem Inv.apply {s s' : St} {cmds : List Cmd} (hi : Inv s) (h : applyCmds s cm
     rw [hn1, this, List.append_nil] at hc
     exact hi.ret hr hl0 c hc
 
-theorem entryIdx_mem : ∀ (conns : List Conn) (k i : Nat) (c : Conn),
-    conns[i]? = some c → c.entry = true → (i + k) ∈ entryIdx conns k := by
-  intro conns
-  induction conns with
-  | nil => intro k i c h; simp at h
-  | cons d ds ih =>
-    intro k i c h he
-    cases i with
-    | zero =>
-      simp at h; subst h
-      simp [entryIdx, he]
-    | succ j =>
-      simp at h
-      have := ih (k + 1) j c h he
-      simp only [entryIdx]
-      split
-      · exact List.mem_cons_of_mem _ (by have e : j + 1 + k = j + (k + 1) := by omega
-                                         rw [e]; exact this)
-      · have e : j + 1 + k = j + (k + 1) := by omega
-        rw [e]; exact this
-
 /-- replacing one task's state: membership -/
 theorem mem_set_cases {l : List Conn} {i : Nat} {c' d : Conn} (h : d ∈ l.set i c') : d = c' ∨ d ∈ l := by
   rcases List.mem_or_eq_of_mem_set h with h | h
   · exact Or.inr h
   · exact Or.inl h
 
-/-- an action of open_connection task `i` preserves the invariant (before the layer's commands are applied) -/
-theorem Inv.set {s : St} {i : Nat} {c c' : Conn}
+theorem mem_of_getElem? {l : List Conn} {i : Nat} {c : Conn} (h : l[i]? = some c) : c ∈ l :=
+  List.mem_of_getElem? h
+
+/-- replacing the state of task `i` (an action of the task, or one of its callbacks) preserves the invariant -/
+theorem Inv.set {s : St} {i : Nat} {c c' : Conn} {n : Nat}
     (hi : Inv s) (hc : s.conns[i]? = some c)
     (h1 : ConnInv c') (h2 : c'.addr = c.addr) (h3 : c'.entry = true → c.entry = true)
-    (h4 : holding c'.pc = true → holding c.pc = true ∨ semFree s c = true) :
-    Inv { s with conns := s.conns.set i c' } := by
+    (h4 : holding c'.pc = true → holding c.pc = true ∨ semFree s c = true)
+    (h5 : CbInv c') (h6 : hasWait c' = true → hasWait c = true)
+    (h7 : c'.entry = true → hasWait c = true → hasWait c' = true)
+    (h8 : n + (if hasWait c = true then 1 else 0) = s.hcount + (if hasWait c' = true then 1 else 0)) :
+    Inv { s with conns := s.conns.set i c', hcount := n } := by
   have hlt : i < s.conns.length := by
     rcases Nat.lt_or_ge i s.conns.length with h | h
     · exact h
@@ -220,14 +264,30 @@ theorem Inv.set {s : St} {i : Nat} {c c' : Conn}
       simp only [Bool.false_eq_true, if_false, Nat.add_zero]
       omega
   · exact hi.h
-  · intro w hw hl j d hd he
-    by_cases hij : i = j
-    · subst hij
-      simp [hlt] at hd
-      subst hd
-      exact hi.fin w hw hl i c hc (h3 he)
-    · simp [hij] at hd
-      exact hi.fin w hw hl j d hd he
+  · intro d hd
+    rcases mem_set_cases hd with rfl | hd
+    · exact h5
+    · exact hi.cb d hd
+  · exact hi.cl
+  · show n = (s.conns.set i c').countP hasWait + cwait s
+    rw [List.countP_set hlt, hci]
+    have hw := hi.wait
+    have hpos : hasWait c = true → 0 < s.conns.countP hasWait := fun h => List.countP_pos_iff.mpr ⟨c, hmem, h⟩
+    by_cases hx : hasWait c = true <;> by_cases hy : hasWait c' = true <;> simp only [hx, hy, if_true, if_false] at h8 ⊢
+    · have := hpos hx; omega
+    · have := hpos hx; simp at h8 ⊢; omega
+    · simp at h8 ⊢; omega
+    · simp at h8 ⊢; omega
+  · intro hl d hd
+    rcases mem_set_cases hd with rfl | hd
+    · cases hw : hasWait d with
+      | false => rfl
+      | true => have := hi.nowait hl c hmem; rw [h6 hw] at this; simp at this
+    · exact hi.nowait hl d hd
+  · intro hw hl d hd he
+    rcases mem_set_cases hd with rfl | hd
+    · exact h7 he (hi.fin hw hl c hmem (h3 he))
+    · exact hi.fin hw hl d hd he
   · intro hr hl d hd
     rcases mem_set_cases hd with rfl | hd
     · have := hi.ret hr hl c hmem
@@ -236,8 +296,43 @@ theorem Inv.set {s : St} {i : Nat} {c c' : Conn}
       | true => rw [h3 he] at this; simp at this
     · exact hi.ret hr hl d hd
 
-theorem mem_of_getElem? {l : List Conn} {i : Nat} {c : Conn} (h : l[i]? = some c) : c ∈ l :=
-  List.mem_of_getElem? h
+/-- registering asyncio.wait's callback on every task that still has an entry -/
+theorem regWait_count : ∀ (l : List Conn), (∀ c ∈ l, hasWait c = false) →
+    (l.map regWait).countP hasWait = l.countP (·.entry) := by
+  intro l
+  induction l with
+  | nil => intro _; rfl
+  | cons d ds ih =>
+    intro h
+    have hd := h d List.mem_cons_self
+    have := ih (fun c hc => h c (List.mem_cons_of_mem _ hc))
+    simp only [List.map_cons, List.countP_cons, this]
+    congr 1
+    unfold regWait
+    cases he : d.entry <;> simp_all [hasWait]
+
+theorem regWait_inv {c : Conn} (h1 : ConnInv c) (h2 : CbInv c) (h3 : hasWait c = false) :
+    ConnInv (regWait c) ∧ CbInv (regWait c) ∧ (regWait c).entry = c.entry ∧
+    (∀ a, holdsAt a (regWait c) = holdsAt a c) ∧ ((regWait c).entry = true → hasWait (regWait c) = true) := by
+  by_cases he : c.entry = true
+  · have hr : regWait c = { c with cbs := c.cbs ++ [.waitH] } := by simp [regWait, he]
+    rw [hr]
+    refine ⟨h1, ?_, rfl, fun _ => rfl, fun _ => by simp [hasWait]⟩
+    unfold CbInv at h2 ⊢
+    have h22 := h2.2 he
+    simp only [hasWait] at h3
+    rcases h22 with h | h
+    · simp [h]
+    · simp [h] at h3
+  · have hr : regWait c = c := by simp [regWait, he]
+    rw [hr]
+    exact ⟨h1, h2, rfl, fun _ => rfl, fun h => absurd h he⟩
+
+theorem stepC_nonabsent {pc pc' : CPC} {a : Act} {cmds : List Cmd} {b : Bool}
+    (h : stepC pc a = some (pc', cmds, b)) : pc ≠ .absent ∧ pc' ≠ .absent := by
+  unfold stepC at h
+  split at h <;> simp only [Option.some.injEq, Prod.mk.injEq, reduceCtorEq] at h <;>
+    (try (obtain ⟨rfl, _, _⟩ := h)) <;> simp_all
 
 /-- every label preserves the invariant -/
 theorem Inv.preserved {s s' : St} {l : Label} (hi : Inv s) (h : step s l = some s') : Inv s' := by
@@ -248,90 +343,129 @@ theorem Inv.preserved {s s' : St} {l : Label} (hi : Inv s) (h : step s l = some 
       simp only [step] at h
       unfold stepH at h
       have hh := hi.h
+      have hcl := hi.cl
       split at h
       · -- h0, hook cc
         simp only [Option.some.injEq] at h; subst h
-        refine ⟨hi.conn, hi.sem, ?_, ?_, ?_⟩
-        · unfold HInv at hh ⊢; simp_all
-        · intro w hw; simp at hw
-        · intro hr; simp at hr
+        exact ⟨hi.conn, hi.sem, by unfold HInv at hh ⊢; simp_all, hi.cb, by unfold CInv cwait at hcl ⊢; simp_all [preC, postC, cwait],
+          hi.wait, fun _ => hi.nowait (by simp_all [isLate]), by intro hw; simp at hw, by intro hr; simp at hr⟩
       · simp only [Option.some.injEq] at h; subst h
-        refine ⟨hi.conn, hi.sem, ?_, ?_, ?_⟩
-        · unfold HInv at hh ⊢; simp_all
-        · intro w hw; simp at hw
-        · intro hr; simp at hr
+        exact ⟨hi.conn, hi.sem, by unfold HInv at hh ⊢; simp_all, hi.cb, by unfold CInv cwait at hcl ⊢; simp_all [preC, postC, cwait],
+          hi.wait, fun _ => hi.nowait (by simp_all [isLate]), by intro hw; simp at hw, by intro hr; simp at hr⟩
       · simp only [Option.some.injEq] at h; subst h
-        refine ⟨hi.conn, hi.sem, ?_, ?_, ?_⟩
-        · unfold HInv at hh ⊢; simp_all
-        · intro w hw; simp at hw
-        · intro hr; simp at hr
-      · simp only [Option.some.injEq] at h; subst h
-        refine ⟨hi.conn, hi.sem, ?_, ?_, ?_⟩
-        · unfold HInv at hh ⊢; simp_all
-        · intro w hw; simp at hw
-        · intro hr; simp at hr
-      · -- preStart, ev start
-        refine Inv.apply (s := { s with hpc := .waitC, cpc := .created }) ⟨hi.conn, hi.sem, ?_, ?_, ?_⟩ h
-        · unfold HInv at hh ⊢; simp_all
-        · intro w hw; simp at hw
-        · intro hr; simp at hr
-      · split at h
-        · simp only [Option.some.injEq] at h; subst h
-          refine ⟨hi.conn, hi.sem, ?_, ?_, ?_⟩
-          · unfold HInv at hh ⊢; simp_all
-          · intro w hw; simp at hw
-          · intro hr; simp at hr
-        · simp at h
-      · simp only [Option.some.injEq] at h; subst h
-        refine ⟨hi.conn, hi.sem, ?_, ?_, ?_⟩
-        · unfold HInv at hh ⊢; simp_all
-        · intro w hw; simp at hw
-        · intro hr; simp at hr
-      · -- inCD, hookret: collect the transports to wait for
+        exact ⟨hi.conn, hi.sem, by unfold HInv at hh ⊢; simp_all, hi.cb, by unfold CInv cwait at hcl ⊢; simp_all [preC, postC, cwait],
+          hi.wait, fun _ => hi.nowait (by simp_all [isLate]), by intro hw; simp at hw, by intro hr; simp at hr⟩
+      · -- killClose, wclose
         simp only [Option.some.injEq] at h; subst h
-        refine ⟨hi.conn, hi.sem, ?_, ?_, ?_⟩
-        · unfold HInv at hh ⊢; simp_all
-        · intro w hw hl i c hc he
-          simp only [HPC.final.injEq] at hw; subst hw
-          have := entryIdx_mem s.conns 0 i c hc he
-          simpa using this
-        · intro hr; simp at hr
-      · -- final w, fin
+        exact ⟨hi.conn, hi.sem, by unfold HInv at hh ⊢; simp_all, hi.cb, by unfold CInv cwait at hcl ⊢; simp_all [preC, postC, cwait],
+          hi.wait, fun _ => hi.nowait (by simp_all [isLate]), by intro hw; simp at hw, by intro hr; simp at hr⟩
+      · -- preStart, ev start: create the client handler task, wait for it
+        refine Inv.apply (?_ : Inv _) h
+        have hnw := hi.nowait (by simp_all [isLate])
+        refine ⟨hi.conn, hi.sem, by unfold HInv at hh ⊢; simp_all, hi.cb, by unfold CInv cwait at hcl ⊢; simp_all [preC, postC, cwait], ?_,
+          fun _ => hnw, by intro hw; simp at hw, by intro hr; simp at hr⟩
+        show 1 = s.conns.countP hasWait + _
+        have : s.conns.countP hasWait = 0 := by
+          rw [List.countP_eq_zero]; intro c hc; simp [hnw c hc]
+        simp [this, cwait]
+      · -- waitC, hook cd: asyncio.wait([handler]) has returned
         split at h
-        · rename_i w _ hall
+        · rename_i hzero
           simp only [Option.some.injEq] at h; subst h
-          refine ⟨hi.conn, hi.sem, ?_, ?_, ?_⟩
-          · unfold HInv at hh ⊢; simp_all
-          · intro w hw; simp at hw
-          · intro _ hl c hc
-            obtain ⟨i, hlt, hci⟩ := List.mem_iff_getElem.mp hc
-            have hc' : s.conns[i]? = some c := by rw [List.getElem?_eq_getElem hlt, hci]
-            cases he : c.entry with
+          have hw := hi.wait
+          have hce : s.centry = false := by
+            unfold CInv at hcl
+            obtain ⟨hshape, hown, hpres, _, _, _⟩ := hcl
+            cases hcen : s.centry with
             | false => rfl
             | true =>
-              have hw := hi.fin w (by assumption) hl i c hc' he
-              have := List.all_eq_true.mp hall i hw
-              simp [settledAt, hc', he] at this
+              have := hown (hpres (by assumption)) hcen
+              simp [cwait, this, hzero] at hw
+          exact ⟨hi.conn, hi.sem, by unfold HInv at hh ⊢; simp_all, hi.cb, by unfold CInv cwait at hcl ⊢; simp_all [preC, postC, cwait],
+            hi.wait, fun _ => hi.nowait (by simp_all [isLate]), by intro hw; simp at hw, by intro hr; simp at hr⟩
+        · simp at h
+      · simp only [Option.some.injEq] at h; subst h
+        exact ⟨hi.conn, hi.sem, by unfold HInv at hh ⊢; simp_all, hi.cb, by unfold CInv cwait at hcl ⊢; simp_all [preC, postC, cwait],
+          hi.wait, fun _ => hi.nowait (by simp_all [isLate]), by intro hw; simp at hw, by intro hr; simp at hr⟩
+      · -- inCD, hookret: register asyncio.wait's callback on every task that still has an entry
+        simp only [Option.some.injEq] at h; subst h
+        have hnw := hi.nowait (by simp_all [isLate])
+        have hreg : ∀ d ∈ s.conns, _ := fun d hd => regWait_inv (hi.conn d hd) (hi.cb d hd) (hnw d hd)
+        refine ⟨?_, ?_, by unfold HInv at hh ⊢; simp_all, ?_, by unfold CInv cwait at hcl ⊢; simp_all [preC, postC, cwait], ?_,
+          by intro hl; simp [isLate] at hl, ?_, by intro hr; simp at hr⟩
+        · intro c hc
+          obtain ⟨d, hd, rfl⟩ := List.mem_map.mp hc
+          exact (hreg d hd).1
+        · intro a
+          show (s.conns.map regWait).countP (holdsAt a) ≤ s.size
+          have : (s.conns.map regWait).countP (holdsAt a) = s.conns.countP (holdsAt a) := by
+            rw [List.countP_map]
+            apply List.countP_congr
+            intro d hd
+            simp [(hreg d hd).2.2.2.1 a]
+          rw [this]; exact hi.sem a
+        · intro c hc
+          obtain ⟨d, hd, rfl⟩ := List.mem_map.mp hc
+          exact (hreg d hd).2.1
+        · show s.conns.countP (·.entry) = (s.conns.map regWait).countP hasWait + cwait s
+          rw [regWait_count s.conns hnw]
+          have hw := hi.wait
+          have hz : s.conns.countP hasWait = 0 := by
+            rw [List.countP_eq_zero]; intro c hc; simp [hnw c hc]
+          -- the client handler has been waited for already: its callbacks are gone
+          have : cwait s = 0 := by
+            unfold CInv at hcl
+            exact hcl.2.2.2.2.2 (by simp_all [postC])
+          omega
+        · intro _ _ c hc he
+          obtain ⟨d, hd, rfl⟩ := List.mem_map.mp hc
+          exact (hreg d hd).2.2.2.2 he
+      · -- final, fin: asyncio.wait has counted down to zero
+        split at h
+        · rename_i hzero
+          simp only [Option.some.injEq] at h; subst h
+          refine ⟨hi.conn, hi.sem, by unfold HInv at hh ⊢; simp_all, hi.cb, by unfold CInv cwait at hcl ⊢; simp_all [preC, postC, cwait],
+            hi.wait, by intro hl; simp [isLate] at hl, by intro hw; simp at hw, ?_⟩
+          intro _ hl c hc
+          cases he : c.entry with
+          | false => rfl
+          | true =>
+            have hwc := hi.fin (by assumption) hl c hc he
+            have : 0 < s.conns.countP hasWait := List.countP_pos_iff.mpr ⟨c, hc, hwc⟩
+            have hw := hi.wait
+            omega
         · simp at h
       · simp at h
     | C =>
       simp only [step] at h
       have hh := hi.h
+      have hcl := hi.cl
       split at h
-      · split at h
+      · rename_i pc cmds closed hsc
+        have hna := stepC_nonabsent hsc
+        split at h
         · refine Inv.apply (?_ : Inv _) h
-          refine ⟨hi.conn, hi.sem, ?_, ?_, ?_⟩
+          refine ⟨hi.conn, hi.sem, ?_, hi.cb, ?_, hi.wait, hi.nowait, hi.fin, hi.ret⟩
           · unfold HInv at hh ⊢; simp only at hh ⊢
             refine ⟨by simp, ?_⟩
             have h2 := hh.2
             split <;> simp_all
-          · intro w hw hl; exact hi.fin w hw hl
-          · intro hr hl; exact hi.ret hr hl
+          · have hpre : preC s.hpc = false := by
+              cases hp : preC s.hpc with
+              | false => rfl
+              | true => unfold CInv at hcl; exact absurd (hcl.2.2.2.2.1 hp) hna.1
+            unfold CInv cwait at hcl ⊢; simp only at hcl ⊢
+            exact ⟨hcl.1, by intro _ hc; simp at hc, fun _ => hna.2, fun hab => absurd hab hna.2,
+              by intro hp; simp [hpre] at hp, hcl.2.2.2.2.2⟩
         · refine Inv.apply (?_ : Inv _) h
-          refine ⟨hi.conn, hi.sem, ?_, ?_, ?_⟩
-          · exact hh
-          · intro w hw hl; exact hi.fin w hw hl
-          · intro hr hl; exact hi.ret hr hl
+          refine ⟨hi.conn, hi.sem, hh, hi.cb, ?_, hi.wait, hi.nowait, hi.fin, hi.ret⟩
+          have hpre : preC s.hpc = false := by
+            cases hp : preC s.hpc with
+            | false => rfl
+            | true => unfold CInv at hcl; exact absurd (hcl.2.2.2.2.1 hp) hna.1
+          unfold CInv cwait at hcl ⊢; simp only at hcl ⊢
+          exact ⟨hcl.1, fun _ hc => hcl.2.1 hna.1 hc, fun _ => hna.2, fun hab => absurd hab hna.2,
+            by intro hp; simp [hpre] at hp, hcl.2.2.2.2.2⟩
       · simp at h
     | S i =>
       simp only [step] at h
@@ -339,8 +473,14 @@ theorem Inv.preserved {s s' : St} {l : Label} (hi : Inv s) (h : step s l = some 
       · rename_i c hc
         split at h
         · rename_i c' cmds hs
-          obtain ⟨h1, h2, h3, h4⟩ := stepS_inv (hi.conn c (mem_of_getElem? hc)) hs
-          exact Inv.apply (Inv.set hi hc h1 h2 h3 h4) h
+          have hmem := mem_of_getElem? hc
+          obtain ⟨h1, h2, h3, h4, h5⟩ := stepS_inv (hi.conn c hmem) hs
+          have hcb := hi.cb c hmem
+          refine Inv.apply (Inv.set (n := s.hcount) hi hc h1 h2 h3 h4 ?_ ?_ ?_ ?_) h
+          · unfold CbInv at hcb ⊢; rw [h5]; exact ⟨hcb.1, fun he => hcb.2 (h3 he)⟩
+          · simp [hasWait, h5]
+          · simp [hasWait, h5]
+          · simp [hasWait, h5]
         · simp at h
       · simp at h
     | K i =>
@@ -348,40 +488,105 @@ theorem Inv.preserved {s s' : St} {l : Label} (hi : Inv s) (h : step s l = some 
       split at h
       · split at h
         · refine Inv.apply (?_ : Inv _) h
-          refine ⟨hi.conn, hi.sem, hi.h, ?_, ?_⟩
-          · intro w hw hl; exact hi.fin w hw hl
-          · intro hr hl; exact hi.ret hr hl
+          exact ⟨hi.conn, hi.sem, hi.h, hi.cb, hi.cl, hi.wait, hi.nowait, hi.fin, hi.ret⟩
         · simp at h
       · simp at h
-  | forget t =>
+  | cb t =>
     cases t with
     | H => simp [step] at h
     | K i => simp [step] at h
     | C =>
       simp only [step] at h
       have hh := hi.h
+      have hcl := hi.cl
+      have hw := hi.wait
       split at h
-      · simp only [Option.some.injEq] at h; subst h
-        refine ⟨hi.conn, hi.sem, ?_, ?_, ?_⟩
-        · unfold HInv at hh ⊢; simp only at hh ⊢
-          refine ⟨by simp, ?_⟩
-          have h2 := hh.2
-          split <;> simp_all
-        · intro w hw hl; exact hi.fin w hw hl
-        · intro hr hl; exact hi.ret hr hl
+      · rename_i hdone
+        have hna : s.cpc ≠ .absent := by rw [hdone]; simp
+        split at h
+        · -- release_transport of the client handler
+          rename_i rest hcb
+          have hrest : rest = [.waitH] := by
+            unfold CInv at hcl; rcases hcl.1 with h | h | h <;> simp_all
+          subst hrest
+          split at h
+          · simp only [Option.some.injEq] at h; subst h
+            refine ⟨hi.conn, hi.sem, ?_, hi.cb, ?_, ?_, hi.nowait, hi.fin, hi.ret⟩
+            · unfold HInv at hh ⊢; simp only at hh ⊢
+              refine ⟨by simp, ?_⟩
+              have h2 := hh.2
+              split <;> simp_all
+            · unfold CInv cwait at hcl ⊢; simp only at hcl ⊢
+              simp_all
+            · show s.hcount = s.conns.countP hasWait + _
+              simp only [cwait, hcb] at hw ⊢; simpa using hw
+          · simp only [Option.some.injEq] at h; subst h
+            rename_i hcen
+            refine ⟨hi.conn, hi.sem, hh, hi.cb, ?_, ?_, hi.nowait, hi.fin, hi.ret⟩
+            · unfold CInv cwait at hcl ⊢; simp only at hcl ⊢
+              simp_all
+            · show s.hcount = s.conns.countP hasWait + _
+              simp only [cwait, hcb] at hw ⊢; simpa using hw
+        · -- asyncio.wait([handler])'s completion callback
+          rename_i rest hcb
+          have hrest : rest = [] := by
+            unfold CInv at hcl; rcases hcl.1 with h | h | h <;> simp_all
+          subst hrest
+          have hcen : s.centry = false := by
+            cases hc : s.centry with
+            | false => rfl
+            | true => unfold CInv at hcl; have := hcl.2.1 hna hc; simp [hcb] at this
+          simp only [Option.some.injEq] at h; subst h
+          refine ⟨hi.conn, hi.sem, hh, hi.cb, ?_, ?_, hi.nowait, hi.fin, hi.ret⟩
+          · unfold CInv cwait at hcl ⊢; simp only at hcl ⊢
+            simp_all
+          · show s.hcount - 1 = s.conns.countP hasWait + _
+            simp only [cwait, hcb] at hw ⊢; simp at hw ⊢; omega
+        · simp at h
       · simp at h
     | S i =>
       simp only [step] at h
       split at h
       · rename_i c hc
+        have hmem := mem_of_getElem? hc
+        have hci := hi.conn c hmem
+        have hcb := hi.cb c hmem
         split at h
-        · rename_i hcond
-          simp only [Option.some.injEq] at h; subst h
-          have hci := hi.conn c (mem_of_getElem? hc)
-          refine Inv.set hi hc ?_ rfl (by simp) (by simp [hcond.1, holding])
-          unfold ConnInv at hci ⊢
-          simp only [hcond.1] at hci ⊢
-          exact hci
+        · rename_i hdone
+          have hsett : ∀ (x : Conn), x.pc = .done → x.nSC = c.nSC → x.nSD = c.nSD → x.nSE = c.nSE → x.nSX = c.nSX → ConnInv x := by
+            intro x hx e1 e2 e3 e4
+            unfold ConnInv at hci ⊢
+            simp only [hdone] at hci; simp only [hx]
+            unfold Settled at hci ⊢; rw [e1, e2, e3, e4]; exact hci
+          split at h
+          · -- release_transport
+            rename_i rest hcbs
+            simp only [Option.some.injEq] at h; subst h
+            have hrest : rest = [] ∨ rest = [.waitH] := by
+              unfold CbInv at hcb; rcases hcb.1 with h | h | h | h <;> simp_all
+            refine Inv.set (n := s.hcount) hi hc (hsett _ hdone rfl rfl rfl rfl) rfl (by simp)
+              (by simp [hdone, holding]) ?_ ?_ (by simp) ?_
+            · unfold CbInv; rcases hrest with h | h <;> simp [h]
+            · rcases hrest with h | h <;> simp [hasWait, h, hcbs]
+            · rcases hrest with h | h <;> simp [hasWait, h, hcbs]
+          · -- asyncio.wait's completion callback
+            rename_i rest hcbs
+            simp only [Option.some.injEq] at h; subst h
+            have hrest : rest = [] := by
+              unfold CbInv at hcb; rcases hcb.1 with h | h | h | h <;> simp_all
+            subst hrest
+            have hent : c.entry = false := by
+              cases he : c.entry with
+              | false => rfl
+              | true => unfold CbInv at hcb; rcases hcb.2 he with h | h <;> simp [hcbs] at h
+            have hwc : hasWait c = true := by simp [hasWait, hcbs]
+            have hpos : 0 < s.conns.countP hasWait := List.countP_pos_iff.mpr ⟨c, hmem, hwc⟩
+            have hw := hi.wait
+            refine Inv.set (n := s.hcount - 1) hi hc (hsett _ hdone rfl rfl rfl rfl) rfl (by simp)
+              (by simp [hdone, holding]) ?_ (by simp [hasWait]) (by simp [hent]) ?_
+            · unfold CbInv; simp [hent]
+            · simp [hasWait, hcbs]; omega
+          · simp at h
         · simp at h
       · simp at h
 
@@ -406,35 +611,47 @@ theorem size_step {s s' : St} {l : Label} (h : step s l = some s') : s'.size = s
       simp only [step] at h
       unfold stepH at h
       split at h <;> (try split at h) <;> (try (simp only [Option.some.injEq] at h; subst h; rfl)) <;>
-        (try (simp at h; done)) <;> (try exact (applyCmds_spec _ _ _ h).2.2.2.2.2.2.2)
+        (try (simp at h; done)) <;> (try exact (applyCmds_spec _ _ _ h).2.2.2.2.2.2.2.1)
     | C =>
       simp only [step] at h
       split at h
-      · split at h <;> exact (applyCmds_spec _ _ _ h).2.2.2.2.2.2.2
+      · split at h <;> exact (applyCmds_spec _ _ _ h).2.2.2.2.2.2.2.1
       · simp at h
     | S i =>
       simp only [step] at h
       split at h
       · split at h
-        · exact (applyCmds_spec _ _ _ h).2.2.2.2.2.2.2
+        · exact (applyCmds_spec _ _ _ h).2.2.2.2.2.2.2.1
         · simp at h
       · simp at h
     | K i =>
       simp only [step] at h
       split at h
       · split at h
-        · exact (applyCmds_spec _ _ _ h).2.2.2.2.2.2.2
+        · exact (applyCmds_spec _ _ _ h).2.2.2.2.2.2.2.1
         · simp at h
       · simp at h
-  | forget t =>
+  | cb t =>
     cases t with
     | H => simp [step] at h
     | K i => simp [step] at h
-    | C => simp only [step] at h; split at h <;> simp at h; subst h; rfl
+    | C =>
+      simp only [step] at h
+      split at h
+      · split at h
+        · split at h <;> (simp only [Option.some.injEq] at h; subst h; rfl)
+        · simp only [Option.some.injEq] at h; subst h; rfl
+        · simp at h
+      · simp at h
     | S i =>
       simp only [step] at h
       split at h
-      · split at h <;> simp at h; subst h; rfl
+      · split at h
+        · split at h
+          · simp only [Option.some.injEq] at h; subst h; rfl
+          · simp only [Option.some.injEq] at h; subst h; rfl
+          · simp at h
+        · simp at h
       · simp at h
 
 theorem size_run : ∀ (ls : List Label) (s s' : St), run s ls = some s' → s'.size = s.size := by
